@@ -39,6 +39,8 @@ static int nreqs;
 static int reqctr;
 static char last_answered_rid[NSLOT][200];
 
+static bool elem_exists[3]; /* s1, s2, m1: false while the owner is away or has removed the element */
+
 static bool alive(int s)
 {
 	return conn[s] >= 0;
@@ -65,9 +67,11 @@ static void connect_slot(int s)
 		jx_sendf(conn[s], "{\"id\":\"a1\",\"method\":\"add\",\"params\":{\"path\":\"s1\",\"value\":0}}");
 		jx_sendf(conn[s], "{\"id\":\"a2\",\"method\":\"add\",\"params\":{\"path\":\"m1\"}}");
 		jx_settle();
+		elem_exists[0] = elem_exists[2] = true;
 	} else if (s == O2) {
 		jx_sendf(conn[s], "{\"id\":\"a3\",\"method\":\"add\",\"params\":{\"path\":\"s2\",\"value\":0}}");
 		jx_settle();
+		elem_exists[1] = true;
 	}
 }
 
@@ -98,6 +102,11 @@ static void finalise(struct req *r, const char *member, const char *payload)
 
 static void model_owner_gone(int o)
 {
+	if (o == O1) {
+		elem_exists[0] = elem_exists[2] = false;
+	} else if (o == O2) {
+		elem_exists[1] = false;
+	}
 	for (int i = 0; i < nreqs; i++) {
 		struct req *r = &reqs[i];
 		if (r->st == R_PENDING && r->owner == o && r->owner_gen == gen[o]) {
@@ -164,7 +173,7 @@ static void observe(void)
 			} else if (m->cls == MC_RESULT || m->cls == MC_ERROR) {
 				const cJSON *id = msg_id(m);
 				char *idt = id ? cJSON_PrintUnformatted(id) : strdup("");
-				if (idt[0] == '"' && (strncmp(idt, "\"a", 2) == 0)) {
+				if (idt[0] == '"' && (strncmp(idt, "\"a", 2) == 0 || strncmp(idt, "\"rm", 3) == 0)) {
 					free(idt);
 					continue; /* answers to the owners' own add requests */
 				}
@@ -272,6 +281,11 @@ static const struct action ACTIONS[] = {
     {"connect(O1)", 6, O1, 0, 0},
     {"connect(K2)", 6, K2, 0, 0},
     {"connect(O2)", 6, O2, 0, 0},
+    /* the owner removes / re-adds an element while requests to it may be in flight (b = target) */
+    {"O1:remove(m1)", 7, O1, 2, 0},
+    {"O1:remove(s1)", 7, O1, 0, 0},
+    {"O1:add(m1)", 8, O1, 2, 0},
+    {"O2:remove(s2)", 7, O2, 1, 0},
 };
 #define NACTIONS ((int)(sizeof(ACTIONS) / sizeof(ACTIONS[0])))
 
@@ -310,6 +324,10 @@ static bool enabled(const struct action *a)
 		return alive(a->a);
 	case 6:
 		return !alive(a->a);
+	case 7:
+		return alive(a->a) && elem_exists[a->b];
+	case 8:
+		return alive(a->a) && !elem_exists[a->b];
 	}
 	return false;
 }
@@ -337,8 +355,8 @@ static void do_request(int caller, int target, int idform, const char *payload, 
 	r->deadline = sim_now() + 5000000000ULL;
 	/* the per-owner limit: a put into the owner's routing table can only fail when at least 2^(order-1) entries are in flight */
 	r->refused_ok = inflight_for_owner(r->owner) >= (1 << (CONFIG_ROUTING_TABLE_ORDER - 1));
-	if (!alive(r->owner)) {
-		/* element is gone with its owner: plain error */
+	if (!alive(r->owner) || !elem_exists[target]) {
+		/* element is gone (with its owner, or removed by it): plain error */
 		r->st = R_FINAL;
 		r->delivered = true; /* nothing to deliver */
 		if (r->idtext[0]) {
@@ -409,6 +427,15 @@ static void apply(const struct action *a)
 	case 6:
 		connect_slot(a->a);
 		break;
+	case 7:
+		/* requests already routed stay answerable by the owner; new ones find no element */
+		jx_sendf(conn[a->a], "{\"id\":\"rm%d\",\"method\":\"remove\",\"params\":{\"path\":\"%s\"}}", ++reqctr, TARGET_PATH[a->b]);
+		elem_exists[a->b] = false;
+		break;
+	case 8:
+		jx_sendf(conn[a->a], "{\"id\":\"ad%d\",\"method\":\"add\",\"params\":{\"path\":\"%s\"%s}}", ++reqctr, TARGET_PATH[a->b], a->b == 2 ? "" : ",\"value\":0");
+		elem_exists[a->b] = true;
+		break;
 	}
 	jx_settle();
 	observe();
@@ -421,6 +448,7 @@ static uint64_t model_hash(int remaining)
 		h = hash_mix(h, alive(s) ? 1 : 0);
 		h = hash_mix(h, last_answered_rid[s][0] ? 1 : 0);
 	}
+	h = hash_mix(h, (uint64_t)elem_exists[0] + 2 * (uint64_t)elem_exists[1] + 4 * (uint64_t)elem_exists[2]);
 	/* multiset of live requests in creation order: (caller, owner, idform, delivered, state); finished ones only matter through the ledger */
 	for (int i = 0; i < nreqs; i++) {
 		struct req *r = &reqs[i];
